@@ -90,12 +90,18 @@ struct Runner {
 			static const char* K[] = {"INTKEY", "STRKEY", "NOSUCHKEY", "DBLKEY"}; const char* v = splinetable_get_key(&x.c, K[a]); const char* w = x.tw->get_aux_value(K[a]);
 			log("get_key", h, -1, true, (!v && !w) || (v && w && !strcmp(v, w)), K[a]);
 		} else if (f == "read_key") {
-			static const char* K[] = {"INTKEY", "STRKEY", "NOSUCHKEY", "DBLKEY"}; int iv = -1, tv = -1; double dv = -1, td = -1; int r; bool t;
-			if (a % 2 == 0) { r = splinetable_read_key(&x.c, SPLINETABLE_INT, K[a], &iv); t = x.tw->read_key(K[a], tv); log("read_key", h, r, t, !t || iv == tv, K[a]); }
-			else { r = splinetable_read_key(&x.c, SPLINETABLE_DOUBLE, K[a], &dv); t = x.tw->read_key(K[a], td); log("read_key", h, r, t, !t || biteq(dv, td), K[a]); }
+			// every key is read as both types (the text of a double read as int, a string read as a number, a missing key)
+			static const char* K[] = {"INTKEY", "STRKEY", "NOSUCHKEY", "DBLKEY", "NEWKEY"};
+			for (int kk = 0; kk < 5; kk++) {
+				if (kk != (int)a && kk != 4 && kk != (int)((a + 1) % 4)) continue;
+				int iv = -1, tv = -1; double dv = -1, td = -1;
+				int r = splinetable_read_key(&x.c, SPLINETABLE_INT, K[kk], &iv); bool t = x.tw->read_key(K[kk], tv); log("read_key", h, r, t, !t || iv == tv, std::string(K[kk]) + " as int");
+				r = splinetable_read_key(&x.c, SPLINETABLE_DOUBLE, K[kk], &dv); t = x.tw->read_key(K[kk], td); log("read_key", h, r, t, !t || biteq(dv, td), std::string(K[kk]) + " as double");
+			}
 		} else if (f == "write_key") {
-			static const char* K[] = {"NEWKEY", "ORDER9", "lower", "INTKEY"}; int v = 5 + (int)a; double d = 0.5 * a; int r; bool t;
-			if (a % 2 == 0) { r = splinetable_write_key(&x.c, SPLINETABLE_INT, K[a], &v); t = ok([&]() { x.tw->write_key(K[a], v); }); }
+			static const char* K[] = {"NEWKEY", "ORDER9", "lower", "INTKEY"}; static const double D[] = {0.5, 2.5e6, -3.9e-5, 1e10, 7.0};
+			int v = 5 + (int)a; double d = D[rng.below(5)]; int r; bool t;
+			if (rng.below(2) == 0) { r = splinetable_write_key(&x.c, SPLINETABLE_INT, K[a], &v); t = ok([&]() { x.tw->write_key(K[a], v); }); }
 			else { r = splinetable_write_key(&x.c, SPLINETABLE_DOUBLE, K[a], &d); t = ok([&]() { x.tw->write_key(K[a], d); }); }
 			log("write_key", h, r, t, same_table(ctab(h), x.tw), K[a]);
 		} else if (f == "accessors") {
